@@ -34,7 +34,7 @@ import (
 )
 
 func init() {
-	register("C20", genC20Hover)
+	// registered from c02.go: genC20 runs the arithmetic ops and then genC20Hover
 	replayers["c20.hover"] = func(c *Ctx, m map[string]any) map[string]any {
 		scen, _ := m["scen"].(map[string]any)
 		req := int(num(m["req"]))
